@@ -769,13 +769,59 @@ def shard_compose(acc, shard, nshards, params):
                family=label, deadline=deadline)
 
 
-CASES = {"transform": case_transform, "lazy": case_lazy, "join": case_join, "compose": case_compose}
+# ---------------------------------------------------------------------------
+# estimated shapes of unowned fiber trees: every stored coordinate lies inside the reported shape, and the estimate
+# is the smallest such shape (largest stored coordinate of any fiber of the level, plus one)
+
+def case_estimate(case):
+    spec, depth = case
+    from mc.univ import mktree as _mktree
+    out = []
+    feats = {"unowned_tree", "depth:%d" % depth, "shape:estimated"}
+    try:
+        f = _mktree(spec, depth)
+        mx = [None] * depth
+
+        def walk(x, d):
+            for c, p in zip(x.coords, x.payloads):
+                mx[d] = c if mx[d] is None else max(mx[d], c)
+                if isinstance(p, Fiber):
+                    walk(p, d + 1)
+        walk(f, 0)
+        if mx[0] is None:
+            return out
+        exp = [m + 1 for m in mx if m is not None]
+        for name, got in (("estimateShape", f.estimateShape()), ("getShape", f.getShape())):
+            got = list(got)
+            # levels below which nothing is stored may be reported as 0 or left out
+            g2 = [x for x in got if x != 0]
+            if g2 != exp:
+                fs = set(feats)
+                if any(isinstance(a, int) and isinstance(b, int) and a < b for a, b in zip(g2, exp)):
+                    fs.add("stored_coordinate_outside_reported_shape")
+                out.append((name, "estimated-shape", fs, exp, got))
+        core.CUR.nt("estimate")
+    except Exception as ex:
+        out.append(("estimateShape", "exception:" + type(ex).__name__, feats | {"site:" + core.exc_site(ex)}, None,
+                    core.tb_tail(ex)))
+    return out
+
+
+def shard_estimate(acc, shard, nshards, params):
+    from mc.univ import t2 as _t2, t3 as _t3
+    cases = [(s_, 2) for s_ in _t2(2, 3)] + [(s_, 3) for s_ in _t3(2, 2, 2)][::params]
+    drive(acc, "estimate", case_estimate, cases, shard, nshards, family="estimate[T2(2,3), T3(2,2,2) every %d-th]" % params)
+
+
+CASES = {"estimate": case_estimate, "transform": case_transform, "lazy": case_lazy, "join": case_join, "compose": case_compose}
 
 
 def run(ctx):
     import time
     q = ctx.quick
     import time as _t
+    if not getattr(ctx, "only", None) or "estimate" in ctx.only:
+        ctx.shards(shard_estimate, 7 if q else 1)
     if not getattr(ctx, "only", None) or "compose" in ctx.only:
         ctx.shards(shard_compose, (2, 3 if q else 4, _t.time() + (60 if q else 600)))
         ctx.shards(shard_compose, (3, 1 if q else 2, _t.time() + (60 if q else 900)))
